@@ -2228,9 +2228,11 @@ class ExpressionEvaluator(Parser):
         elif op == "*":
             return lhs * rhs
         elif op == "/":
-            return lhs // rhs  # force integer division
+            # Integer division truncates toward zero.
+            return (lhs - np.fmod(lhs, rhs)) // rhs
         elif op == "%":
-            return lhs % rhs
+            # The remainder has the sign of the dividend.
+            return np.fmod(lhs, rhs)
         else:
             raise ValueError("Not a binary operator.")
 
